@@ -296,7 +296,7 @@ def run(ck):
         "%d-entry log on keys a,b,c with pairwise distinct values. Single crashes: EVERY mutating FS-operation index "
         "0..N of every workload (N = crash after the last operation). Double crashes: phase 1 = workload crashed at k1, "
         "phase 2 = '%s' on a new process crashed at k2, then reopen; quick: all (k1,k2) of 'first-open' and every 7th "
-        "pair of three more workloads; thorough: all pairs of the fixed workloads, every 3rd pair of the PRNG ones. "
+        "pair of three more workloads; thorough: all pairs of the fixed workloads, every 2nd pair of the PRNG ones. "
         "A case is non-trivial if the crash hits a call in progress; distinct by workload and crash indexes."
         % (NRAND, LOGLEN, PHASE2))
     proofs_ok = ck.proofs(["theories/DiskKVRun.vo"])
@@ -335,7 +335,7 @@ def run(ck):
     elif quick:
         dbl = [("first-open", 1), ("recover-foreign-then-update", 7), ("close-reopen", 7), ("prng-1", 7)]
     else:
-        dbl = [(wid, 1) for wid, _ in FIXED] + [(wid, 3) for wid, _ in workloads[len(FIXED):]]
+        dbl = [(wid, 1) for wid, _ in FIXED] + [(wid, 2) for wid, _ in workloads[len(FIXED):]]
     for wid, stride in dbl:
         lines.append("%s D%d %s %s %s" % (wid, stride, LOGSTR, wl[wid], PHASE2))
     res = run_go(ck, binp, lines, "c16", 4 if quick else 16)
